@@ -50,6 +50,10 @@ func cmdRegexp(p *lang.Process) (err error) {
 		return fmt.Errorf("invalid regexp (too many parameters) in: `%s`", p.Parameters.StringAll())
 	}
 
+	if len(sRegex[0]) == 0 {
+		return fmt.Errorf("invalid regexp (missing the m, s or f mode) in: `%s`", p.Parameters.StringAll())
+	}
+
 	var rx *regexp.Regexp
 	if rx, err = regexp.Compile(sRegex[1]); err != nil {
 		return
